@@ -105,6 +105,9 @@ const (
 	aRollback   = "rollback"   // t.Rollback() explicitly
 	aConflict   = "conflict"   // make the transaction fail: a conflicting transaction commits first
 	aTryReturn  = "tryreturn"  // return 7 inside try ... catch inside the block
+	aQryReturn  = "qryreturn"  // return 7 from inside the block form of t.Query in the block
+	aQryLoopRet = "qryloopret" // return 7 from a loop over the rows inside a t.Query block
+	aQryThrow   = "qrythrow"   // throw "x" from inside the block form of t.Query in the block
 )
 
 type end struct {
@@ -136,6 +139,10 @@ var ends = []end{
 	{"Complete, Rollback", []string{aComplete, aRollback, aNormal}, true},
 	{"Rollback, Complete", []string{aRollback, aComplete, aNormal}, true},
 	{"return 7 inside try-catch", []string{aTryReturn}, true},
+	{"return 7 inside a t.Query block", []string{aQryReturn, aNormal}, true},
+	{"return 7 inside a loop in a t.Query block", []string{aQryLoopRet, aNormal}, true},
+	{"throw inside a t.Query block", []string{aQryThrow, aNormal}, true},
+	{"Complete, return 7 inside a t.Query block", []string{aComplete, aQryReturn, aNormal}, true},
 	{"conflict, fall off", []string{aConflict, aNormal}, false},
 	{"conflict, return 7", []string{aConflict, aReturn}, false},
 	{"conflict, throw", []string{aConflict, aThrow}, false},
@@ -154,6 +161,11 @@ var actionSrc = map[string]string{
 	aNestReturn: "b = { return 7 }\n b()",
 	aCallThrow:  `(function () { throw "x" })()`,
 	aTryReturn:  "try\n return 7\n catch (e)\n tt.swallowed = e",
+	// the block form of t.Query closes the query when its block is left; leaving
+	// it by return / throw leaves the transaction block the same way
+	aQryReturn:  "t.Query('tbl')\n { |q|\n return 7\n }",
+	aQryLoopRet: "t.Query('tbl')\n { |q|\n for (i = 0; i < 3; ++i)\n if i is 1\n return 7\n }",
+	aQryThrow:   "t.Query('tbl')\n { |q|\n throw \"x\"\n }",
 	aComplete:   `t.Complete()`,
 	aRollback:   `t.Rollback()`,
 	// A second, overlapping transaction changes row 0 and commits; reading row 0
@@ -270,6 +282,14 @@ func interpret(p prog) expect {
 			value = "123"
 		case aReturn, aLoopReturn, aNestReturn, aTryReturn:
 			outcome, value = "return", "7"
+		case aQryReturn, aQryLoopRet:
+			if status == "active" {
+				outcome, value = "return", "7"
+			} else {
+				outcome, exception = "throw", "*" // a query on an ended transaction
+			}
+		case aQryThrow:
+			outcome, exception = "throw", "x"
 		case aThrow, aCallThrow:
 			outcome, exception = "throw", "x"
 		case aBreak:
